@@ -55,3 +55,33 @@ Definition codeql_spec_ok (c : reader_case) : bool :=
 Definition dd_model_ok (c : reader_case) : bool := opt_grouped_eq (dd_reader (fst c)) (snd c).
 Definition dd_spec_ok (c : reader_case) : bool :=
   match snd c with Some o => grouped_eq (dd_spec (fst c)) o | None => true end.
+
+(** detect_sarif_tools: files (id, loaded document), observed: Some [(tool, file id)] | None = DuplicateToolError; crashes are
+    reported separately by the harness as observed_kind = 2 *)
+From CM Require Import Model.SarifTools.
+Definition tools_case := (list (N * json) * N * list (N * N))%type.   (* files, outcome kind 0 ok / 1 duplicate / 2 crash, pairs (tool 0|1, file) *)
+Definition tool_code (t : tool) : N := match t with TSemgrep => 0 | TCodeQL => 1 end.
+Definition runs_of (doc : json) : option (list json) := match jget s_runs doc with Some (JArr l) => Some l | _ => None end.
+Definition tools_model_ok (c : tools_case) : bool :=
+  let '(files, kind, pairs) := c in
+  match detect_tools (map (fun fd => (fst fd, runs_of (snd fd))) files), kind with
+  | TOk m, 0%N =>
+      let mp := map (fun p => (tool_code (fst p), snd p)) m in
+      forallb (fun p => existsb (pair_eqb N.eqb N.eqb p) pairs) mp && forallb (fun p => existsb (pair_eqb N.eqb N.eqb p) mp) pairs
+  | TDuplicate, 1%N => true
+  | TCrash, 2%N => true
+  | _, _ => false
+  end.
+(** spec: every file holding a recognisable run of a tool is attributed to it; non-inspectable and foreign runs change nothing *)
+Definition tools_spec_ok (c : tools_case) : bool :=
+  let '(files, kind, pairs) := c in
+  match kind with
+  | 0%N =>
+      forallb (fun fd =>
+        forallb (fun t =>
+          Bool.eqb (existsb (fun run => match detect t run with DYes => true | _ => false end)
+                            (match runs_of (snd fd) with Some l => l | None => [] end))
+                   (existsb (pair_eqb N.eqb N.eqb (tool_code t, fst fd)) pairs))
+          detector_order) files
+  | _ => true
+  end.
